@@ -1089,8 +1089,13 @@ def masked_iterate_final() -> Callable[[GenerativeFunction[Y]], GenerativeFuncti
         def pre(state, flag: Flag):
             return flag, state
 
-        def post(_unused_args, _xformed, masked_retval: Mask[Y]):
-            return masked_retval.value, None
+        def post(args, _xformed, masked_retval: Mask[Y]):
+            # a masked-off step leaves the iterated value unchanged.
+            state, flag = args
+            value = jtu.tree_map(
+                lambda new, old: jnp.where(flag, new, old), masked_retval.value, state
+            )
+            return value, None
 
         # scan_step: (a, bool) -> a
         scan_step = step.mask().dimap(pre=pre, post=post)
